@@ -375,6 +375,8 @@ struct DiscConn {
     connected: BTreeSet<usize>,
     dropped: bool,
     recreated: bool,
+    /// time of each endpoint's first disconnect_now() call
+    now_call_ns: BTreeMap<usize, u64>,
 }
 
 pub struct DisconnectOracle {
@@ -424,6 +426,11 @@ impl Oracle for DisconnectOracle {
                 if let Some((client, _)) = self.conn_of(*ep, *to, cx.plan) {
                     let c = self.conns.entry(client).or_default();
                     c.calls.entry(*ep).or_insert((*call, now));
+                    // (only calls made on an established connection: the server also accepts
+                    // them for a lingering closed entry of the same address)
+                    if now && c.connected.contains(ep) {
+                        c.now_call_ns.entry(*ep).or_insert(cx.now_ns);
+                    }
                 }
             }
             Rec::Call { op: Op::ServerDrop { to, .. }, skipped: false, .. } => {
@@ -478,7 +485,7 @@ impl Oracle for DisconnectOracle {
                         // (1) flush guarantee: the other side called disconnect() (not _now), this
                         // side did not disconnect itself
                         let callers: Vec<(usize, (u64, bool))> = c.calls.iter().map(|(k, v)| (*k, *v)).collect();
-                        if callers.len() == 1 && callers[0].0 != *ep && !callers[0].1 .1 && !c.dropped {
+                        if callers.len() == 1 && callers[0].0 != *ep && !callers[0].1 .1 && !c.dropped && !c.now_call_ns.contains_key(&callers[0].0) {
                             let caller = callers[0].0;
                             self.flush_checked += 1;
                             let got = c.delivered.get(ep).cloned().unwrap_or_default();
@@ -508,6 +515,20 @@ impl Oracle for DisconnectOracle {
                 for (client, c) in self.conns.iter() {
                     if c.dropped || c.recreated {
                         continue;
+                    }
+                    // disconnect_now(): the request goes out at once (at the caller's next step),
+                    // whatever was asked for before and however much is still queued
+                    for (ep, t_call) in c.now_call_ns.iter() {
+                        if !c.connected.contains(ep) || c.terminal.get(ep).map_or(false, |(t, _)| *t <= *t_call) || c.first_disc_ns.get(ep).map_or(false, |t| *t <= *t_call) {
+                            continue;
+                        }
+                        let gap = self.max_step_gap_ns.get(ep).cloned().unwrap_or(0);
+                        let limit = *t_call + 2 * gap + 50_000_000;
+                        let sent = c.first_disc_ns.get(ep).cloned();
+                        if *t_ns > limit && sent.map_or(true, |t| t > limit) && c.terminal.get(ep).map_or(true, |(t, _)| *t > limit) {
+                            let d = format!("endpoint {} called disconnect_now() at {:.3} s but its disconnect request was first transmitted at {:?} s (steps at most {:.3} s apart)", ep, *t_call as f64 / 1e9, sent.map(|t| t as f64 / 1e9), gap as f64 / 1e9);
+                            return viol(prop, "disconnect_now_not_immediate", d, 0);
+                        }
                     }
                     for (caller, t0) in c.first_disc_ns.iter() {
                         let server = match &cx.plan.endpoints[*client].kind {
